@@ -64,9 +64,9 @@ def main():
      "setup_cmd": "cd /verif && /venv/bin/python tools/setup_check.py",
      "hooks": {
       "guard": "CONDREWARDS_VERIF",
-      "enable": "CONDREWARDS_VERIF=1 in the environment of the harness worker processes plus a sink installed in tad.VERIF_SINK (pure Python, nothing to build); three call sites: after solve_reachability, before the reward phase, after every reachability sweep",
+      "enable": "CONDREWARDS_VERIF=1 in the environment of the harness worker processes plus a sink installed in tad.VERIF_SINK (pure Python, nothing to build); four call sites: after solve_reachability, before the reward phase, after every reachability sweep, after every reward sweep",
       "baseline_off_cmd": "cd /repo && /venv/bin/python -m pytest -ra -q -p no:cacheprovider --timeout=900 --continue-on-collection-errors",
-      "source_commits": ["c53f609", "89b76b8"],
+      "source_commits": ["c53f609", "89b76b8", "81c58f9"],
       "add_only": True
      },
      "engines": [
